@@ -90,7 +90,7 @@ def run_shard(acc, prop, tier, seed, shard, nshards, **kw):
     finally:
         srv.close()
     from .c02 import cell_walk
-    _w.shard(acc, PROP, tier, seed, shard, nshards, factory, WEIGHTS, (12, (120, 200)), (500, (120, 300)), CORR,
+    _w.shard(acc, PROP, tier, seed, shard, nshards, factory, WEIGHTS, (12, (120, 200)), (300, (120, 300)), CORR,
              post_hook=cell_walk, post_every=(3, 2))
 
 
